@@ -399,6 +399,13 @@ def illcond_solve(ctx, rng):
     b = ob.value
     for s_ in list(b.blocks):
         b.blocks[s_] = np.asarray(b.blocks[s_]).astype(dt)
+    if rng.random() < 0.5:
+        # a GENERIC right-hand side (components along the small singular directions: the
+        # solution is large and a single-precision solve leaves a visible residual)
+        vals_b = gen.Values(rng, "gauss", dt)
+        for s_ in list(b.blocks):
+            b.blocks[s_] = vals_b(np.asarray(b.blocks[s_]).shape)
+        ctx.count("illcond", "generic-right-hand-side")
     o = ctx.call(lambda: sr.linalg.solve(a, b))
     ctx.evaluated()
     ctx.count("dtype", dt)
